@@ -238,7 +238,7 @@ def run(rep):
         rep.sample({"trace_prefix": obs[:3]})
     # ---- sweeps
     nsweep = 0
-    for victim in ("worker", "consumer", "psm"):
+    for victim in ("worker", "consumer", "sender", "psm"):
         for cause in ("eof", "dpr"):
             for k in range(0, 300):
                 verdict, info = assoc.run_life_sweep(victim, k, cause)
